@@ -387,6 +387,10 @@ impl<'a> Reader for ProtobufReader<'a> {
     fn read_bit_string<C: bitstring::Constraint>(&mut self) -> Result<(Vec<u8>, u64), Self::Error> {
         let mut reader = self.next_range_format_reader(Format::LengthDelimited); // TODO Format::VarInt ??
         let bytes = reader.read_bytes()?;
+        if bytes.len() < core::mem::size_of::<u64>() {
+            // the trailing bit length is missing
+            return Err(std::io::Error::from(std::io::ErrorKind::UnexpectedEof).into());
+        }
         let bits = BitVec::from_vec_with_trailing_bit_len(bytes);
         Ok(bits.split())
     }
